@@ -9,6 +9,7 @@ ID = 'C08'
 TITLE = "btcdeb's real main() run in the engine in non-interactive mode (scripted argv / tty-ness / stdin; script structure concrete, stack arguments symbolic): exit code and stdout against the reference run of the same script; no exception may leave main"
 TUS = maindeb.TUS; SHIMS = maindeb.SHIMS
 NATIVE = True
+PARTS = ['C08cont']
 NATIVE_TUS = build.ALL_NATIVE + ['instance', 'functions', 'kerl']
 FUNCTIONS = ['main() of btcdeb.cpp (option parsing via cliargs, script/stack parsing, setup_environment, listing construction, ContinueScript, print_stack raw)', 'ContinueScript', 'print_stack', 'HexStr',
              'Instance::parse_script / parse_stack_args / setup_environment', 'Value(const char*) / data_value']
